@@ -570,7 +570,7 @@ class ReplaceWiresAndVariables(ast.NodeTransformer):
         self.arguments = arguments
         # names that belong to self.<name>: a local variable with one of these names would
         # silently become the same Verilog identifier
-        self.selfNames = set(ports.keys()) | set(variables.keys()) | set(arguments.keys())
+        self.selfNames = set(ports.keys()) | set(variables.keys()) | set(arguments.keys()) | set(w.name for w in ports.values())
         
     def visit_Name(self, node):
         
@@ -579,7 +579,7 @@ class ReplaceWiresAndVariables(ast.NodeTransformer):
             raise TranspilationException('Local variable {} has the name of a self attribute'.format(name))
 
         if (name in self.ports.keys()):
-            return VerilogWire(name)
+            return self.ports[name]
 
         if (name in self.variables.keys()):
             return VerilogVariable(name, self.variables[name].type)
@@ -590,6 +590,10 @@ class ReplaceWiresAndVariables(ast.NodeTransformer):
         # create new variable
         self.variables[name] = VerilogVariableDeclaration(name, 'integer')
         return VerilogVariable(name, 'integer')
+
+    def visit_VerilogWire(self, node):
+        # wires created from get/put/prepare calls carry the attribute name
+        return self.ports.get(node.name, node)
 
     def visit_Attribute(self, node):
         
@@ -602,7 +606,7 @@ class ReplaceWiresAndVariables(ast.NodeTransformer):
             raise TranspilationException('Attribute self.{} has the name of a local variable'.format(name))
         self.selfNames.add(name)
         if (name in self.ports.keys()):
-            return VerilogWire(name)
+            return self.ports[name]
 
         if (name in self.variables.keys()):
             return VerilogVariable(name, self.variables[name].type)
@@ -728,7 +732,12 @@ class ExtractInitializers(ast.NodeTransformer):
             else:
                 print('# name not expected', fname)
 
-            w = VerilogWire(pname)
+            # the body names the wire by the attribute, the module header by the port name
+            portname = pname
+            if (len(node.value.args) > 0 and isinstance(node.value.args[0], ast.Constant) and isinstance(node.value.args[0].value, str)):
+                from py4hw.rtl_generation import getValidVerilogName
+                portname = getValidVerilogName(node.value.args[0].value)
+            w = VerilogWire(portname)
             self.ports[pname] = w        
             self.top.wires.wires.append(w)
             return None
